@@ -439,6 +439,9 @@ class C14(Prop):
                  "http://[::1%2525a]", "a.b://host/", "HTTP://User@EXAMPLE.com:0080/%7euser/./x/../y?q=%zz#f%41",
                  "google.com:80", "/foo?bar", "http://b\u00fccher.de/", "http://[::1]\n", "x://A%41/../b"]
         yield from self.chunked("seed", seeds)
+        # running time first: cheap, and a deep (escalated) enumeration below may use up the time budget
+        for pat in PATHO:
+            yield {"kind": "timing", "pat": pat, "ns": [1000, 10000, 100000]}
         if deep:
             yield from self.chunked("exh", self.exhaustive_strings(ALPHA14, 4, ["", "http://"]))
             yield from self.chunked("exh", (s for s in self.exhaustive_strings(ALPHA14, 5, ["", "http://"]) if len(s.replace("http://", "", 1) if s.startswith("http://") else s) == 5))
@@ -452,8 +455,6 @@ class C14(Prop):
         nuni = 100000 if deep else 6000
         yield from self.chunked("uni", (self.random_unicode(rng) for _ in range(nuni)))
         yield from self.comp_cases(rng, 200000 if deep else 12000)
-        for pat in PATHO:
-            yield {"kind": "timing", "pat": pat, "ns": [1000, 10000, 100000]}
 
     # ------------------------------------------------------------ oracle on one string
     MAX_PER_SIG = 4
